@@ -16,6 +16,8 @@ pub enum InitialWb {
     /// descriptor layouts as imported files have (multi-column `Col`s with
     /// mixed width / hidden / style), index into `layouts()`
     Layout(u8),
+    /// imported from a fixture of xlsx/tests (style pools, fonts and default style of real files)
+    Fixture(String),
 }
 
 /// what the bare `Model` of the world (C29/C30) starts from
@@ -196,6 +198,13 @@ impl World {
                 apply_layout(&mut m, k);
                 Node::from_model(m, lang, 0)
             }
+            InitialWb::Fixture(ref name) => {
+                let b = std::fs::read(format!("{}/{}", fixtures_dir(), name)).map_err(|e| format!("harness: fixture {name}: {e}"))?;
+                let wb = ironcalc::import::load_from_xlsx_bytes(&b, "model", locale, tz).map_err(|e| format!("harness: fixture {name}: {e}"))?;
+                let mut m = Model::from_workbook(wb, lang)?;
+                m.evaluate();
+                Node::from_model(m, lang, 0)
+            }
         };
         if init.start_paused {
             primary.um.pause_evaluation();
@@ -310,6 +319,17 @@ impl World {
             RowStyle { sheet, row, style } => m.set_row_style(*sheet, *row, style),
             RowStyleDelete { sheet, row } => m.delete_row_style(*sheet, *row),
             CellStyle { sheet, row, col, style } => m.set_cell_style(*sheet, *row, *col, style),
+            AddSheet { name } => m.add_sheet(name),
+            InsertSheet { name, index } => m.insert_sheet(name, *index, None),
+            RenameSheet { index, name } => m.rename_sheet_by_index(*index, name),
+            DeleteSheet { index } => m.delete_sheet(*index),
+            Input { sheet, row, col, text } => m.set_user_input(*sheet, *row, *col, text.clone()).map(|_| m.evaluate()),
+            InsertRows { sheet, row, n } => m.insert_rows(*sheet, *row, *n).map(|_| m.evaluate()),
+            InsertCols { sheet, col, n } => m.insert_columns(*sheet, *col, *n).map(|_| m.evaluate()),
+            DeleteRows { sheet, row, n } => m.delete_rows(*sheet, *row, *n).map(|_| m.evaluate()),
+            DeleteCols { sheet, col, n } => m.delete_columns(*sheet, *col, *n).map(|_| m.evaluate()),
+            MoveRows { sheet, row, n, delta } => m.move_rows_action(*sheet, *row, *n, *delta).map(|_| m.evaluate()),
+            MoveCols { sheet, col, n, delta } => m.move_columns_action(*sheet, *col, *n, *delta).map(|_| m.evaluate()),
             Restart => {
                 let b = m.to_bytes();
                 let mut n = Model::from_bytes(&b, lang)?;
